@@ -497,7 +497,7 @@ def r2_local_frames(ctx):
     def X(b):
         return F.fn("idx", iloc, F.fn("tuple", b, tail))
     # ---- the rectangular step
-    rect = [lp for lp in gen.sh.loops if lp["depth"] == 0 and not _atan2_calls(gen, lp) and _loop_rows(gen, lp) is not None]
+    rect = [lp for lp in gen.sh.loops if lp["depth"] == 0 and lp["outer"] is None and not _atan2_calls(gen, lp) and _loop_rows(gen, lp) is not None]
     rbcall = [c for c in gen.calls if c[0] == "rbgeom"]
     ok, detail = len(rect) == 1 and len(rbcall) == 1, None
     if ok:
@@ -510,7 +510,7 @@ def r2_local_frames(ctx):
     ctx.check(ok, "rbgeom_uset: the basic rigid-body rows of every grid are taken to its output system with the transpose of that grid's own 3x3 "
                   "(table rows 3..5, columns x, y, z), translations and rotations alike", rect[0]["node"] if rect else fn, detail)
     # ---- the cylindrical / spherical fix-ups
-    loops = [lp for lp in gen.sh.loops if lp["depth"] == 0 and _atan2_calls(gen, lp)]
+    loops = [lp for lp in gen.sh.loops if lp["depth"] == 0 and lp["outer"] is None and _atan2_calls(gen, lp)]
     want_type = gen.expr('uset.loc[(slice(None), 2), "y"]')
     rho, phi, zz, Rr, th = F.sym("rho"), F.sym("phi"), F.sym("zeta"), F.sym("Rr"), F.sym("theta")
     o, i1 = F.const(0), F.const(1)
